@@ -248,5 +248,6 @@ func TestC01(t *testing.T) {
 			cnt++
 		}
 	}
-	c.Exhaustive(fmt.Sprintf("plaintext length 0..1100 x AD length in %v (per path)", ads), cnt)
+	_ = cnt
+	c.Exhaustive(fmt.Sprintf("plaintext length 0..1100 x AD length in %v, on every path (cases, all shards together)", ads), idx)
 }
